@@ -5,9 +5,11 @@ import (
 	"testing"
 
 	"github.com/polynetwork/poly/common"
+	"github.com/polynetwork/poly/native/service/governance/node_manager"
 	"pgregory.net/rapid"
 
 	"verif/harness/ev"
+	"verif/harness/world"
 )
 
 // ---------------------------------------------------------------------------------------------
@@ -18,7 +20,8 @@ import (
 // A request transaction is accepted iff it carries the witness of the address it names and (update,
 // quit) that address owns the registered chain / (register) the id is neither registered nor
 // requested; an approval is accepted iff witnessed and the request is pending, and takes effect at
-// ceil(2N/3) distinct consensus approvers (N fixed: no epoch changes here). After every transaction
+// ceil(2N/3) distinct approvers that are consensus validators at that moment (the consensus set is read
+// from the real pool before every transaction; candidates, quitting and blacklisted pool members do not count). After every transaction
 // the real registry (GetSideChain) must equal the model registry for every chain id.
 
 type c35Case struct {
@@ -89,6 +92,9 @@ func genC35(t *rapid.T) c35Case {
 		if rapid.IntRange(0, 3).Draw(t, "outsider") == 0 {
 			out = append(out, gop{K: ak, B: ch, A: genActor(n).Draw(t, "anybody")})
 		}
+		if rapid.IntRange(0, 3).Draw(t, "nonConsensusRound") == 0 { // pool members without consensus status approve (must not count)
+			out = append(out, gop{K: kRound, M: ak, B: ch, W: 4, A: rapid.IntRange(0, 3).Draw(t, "s4"), C: rapid.SampledFrom([]int{0, -2, -2, 1}).Draw(t, "c4")})
+		}
 		if rapid.IntRange(0, 4).Draw(t, "complete") > 0 {
 			out = append(out, gop{K: kRound, M: ak, B: ch, A: rapid.IntRange(0, n-1).Draw(t, "s2"), C: rapid.SampledFrom([]int{0, 0, -2}).Draw(t, "c2")})
 		}
@@ -123,12 +129,35 @@ func genC35(t *rapid.T) c35Case {
 		return out
 	}
 	var ops []gop
+	// pool shaping (3 cases in 4): peers that are in the pool of the current view but are no consensus validators -
+	// approved candidates (no epoch change follows), a validator or candidate that quit, a blacklisted candidate
+	if rapid.IntRange(0, 3).Draw(t, "shapePool") > 0 {
+		k := rapid.IntRange(1, spareNodes).Draw(t, "candidates")
+		for i := 0; i < k; i++ {
+			ops = append(ops, gop{K: kRegCand, A: n + i, B: n + i}, gop{K: kRound, M: kApprCand, B: n + i, A: rapid.IntRange(0, n-1).Draw(t, "sc")})
+		}
+		if rapid.Bool().Draw(t, "quitOne") {
+			q := rapid.IntRange(0, n+k-1).Draw(t, "quitter")
+			ops = append(ops, gop{K: kQuit, A: -1, B: q})
+		}
+		if rapid.IntRange(0, 2).Draw(t, "blackOne") == 0 {
+			ops = append(ops, gop{K: kRound, M: kBlack, L: []int{(n + rapid.IntRange(0, k-1).Draw(t, "blackened")) * 8}, A: rapid.IntRange(0, n-1).Draw(t, "sb")})
+		}
+	}
 	parts := rapid.SliceOfN(rapid.Custom(func(t *rapid.T) []gop {
-		switch x := rapid.IntRange(0, 9).Draw(t, "part"); {
-		case x < 3:
+		switch x := rapid.IntRange(0, 19).Draw(t, "part"); {
+		case x < 6:
 			return lifecycle(t)
-		case x < 7:
+		case x < 13:
 			return episode(t, 0, "", -1)
+		case x < 15: // approvals by the non-consensus members of the pool
+			return []gop{{K: kRound, M: rapid.SampledFrom(c35Approves).Draw(t, "nkind"), B: chainGen.Draw(t, "chain"), W: 4,
+				A: rapid.IntRange(0, 3).Draw(t, "s5"), C: rapid.SampledFrom([]int{0, -2, 1, 2}).Draw(t, "c5")}}
+		case x < 16: // the pool changes in between: a quit, an epoch change
+			if rapid.Bool().Draw(t, "quitOrCommit") {
+				return []gop{{K: kQuit, A: -1, B: rapid.IntRange(0, n+spareNodes-1).Draw(t, "quitter2")}}
+			}
+			return []gop{{K: kNext}, {K: kCommit}}
 		}
 		return []gop{single(t)}
 	}), 2, ev.Scale(12, 30)).Draw(t, "parts")
@@ -151,22 +180,30 @@ func runC35(ctx *ev.Ctx, c c35Case) {
 		c.N = 4
 	}
 	e := newEng(ctx, c.N, 0, 0)
-	cons, _, n := e.pool().consensus()
-	thr := ceil2of3(n)
 	chains := map[uint64]*c35Chain{}
 	for id := uint64(1); id <= numChains; id++ {
 		chains[id] = &c35Chain{appr: map[string]map[common.Address]bool{}}
 	}
 	neutral := ev.IsKnown("C35", c35F13a) && !ctx.Replaying
 	neutralUpd := ev.IsKnown("C35", c35StaleUpd) && !ctx.Replaying
-	var sawUpd, sawQuit, sawNonOwner, sawOverwrite bool
+	var sawUpd, sawQuit, sawNonOwner, sawOverwrite, nonConsApprover bool
 	step := 0
 	for _, top := range c.Ops {
 		for _, op := range e.expand(top) {
 			step++
-			if op.K == kNext {
-				e.exec(op)
+			if family(op.K) != "sc" { // next block, pool shaping (candidates, quit, blacklisting, epoch change)
+				if sr := e.exec(op); sr.res.Panic != "" {
+					ctx.Failf("step %d %s panicked: %s", step, op.K, sr.res.Panic)
+				}
 				continue
+			}
+			prePool := e.pool()
+			cons, _, n := prePool.consensus()
+			thr := ceil2of3(n)
+			if isApprove(op.K) {
+				if it, ok := prePool.Items[world.PubHex(e.actor(op.A))]; ok && it.Status != node_manager.ConsensusStatus {
+					nonConsApprover = true
+				}
 			}
 			t := e.targetOf(op.K, op)
 			ch := chains[t.id]
@@ -271,6 +308,9 @@ func runC35(ctx *ev.Ctx, c c35Case) {
 	if sawOverwrite {
 		e.label("update-overwritten-while-partially-approved")
 	}
+	if nonConsApprover {
+		e.label("approval-sent-by-non-consensus-pool-member")
+	}
 }
 
 // c35Count records an accepted approval and applies the request when the threshold is reached.
@@ -328,7 +368,7 @@ func c35Count(ctx *ev.Ctx, e *eng, ch *c35Chain, k string, sr stepRes, cons map[
 func TestC35(t *testing.T) {
 	ev.Drive(t, "C35",
 		"cases: N=4..7 (thorough 13) validators, chain ids 1..3, three owner accounts; 3..45 (thorough 100) ops: register/update/quit requests by owners and non-owners (7% with a foreign witness), "+
-			"approval rounds (threshold, threshold-1, all, 1, 2) and single approvals by validators and outsiders, requests overwritten while partially approved. "+
+			"3 cases in 4 first put non-consensus members into the pool (1..4 approved candidates without epoch change, a quit, a blacklisted candidate); approval rounds (threshold, threshold-1, all, 1, 2) by consensus validators and by the non-consensus pool members, single approvals by validators, pool members and outsiders, occasional quit / epoch change in between, requests overwritten while partially approved. "+
 			"non-trivial: an update and a removal took effect and a non-owner's update/quit request was attempted on a registered chain; distinct by JSON of the case",
 		genC35, runC35)
 }
